@@ -1,4 +1,5 @@
 CONSTANTS
+  RecordPath = FALSE
   MaxSteps = 5
   ExplicitIds = {0, 1, 2, 3}
   MaxChans = 4
